@@ -677,6 +677,12 @@ pub struct FsmCfg {
     /// the interface owns two addresses of one subnet and the peer talks to the SECOND one
     /// (the one source-address selection would not pick for this peer)
     pub second_addr: bool,
+    /// window advertised by the peer's segments that carry FIN (None: `peer_win` like all others)
+    pub fin_win: Option<u16>,
+    /// the exploration starts in TIME-WAIT (reached through listen, SYN, ACK, close(), FIN|ACK
+    /// applied as ordinary events) and the clock can also move in 7 s steps, so that what a
+    /// segment does to the 2MSL timer in the middle of TIME-WAIT becomes visible
+    pub start_tw: bool,
 }
 
 #[derive(Clone, Debug, PartialEq)]
@@ -703,6 +709,8 @@ pub enum FsmEv {
     Api(Api),
     ToPollAt,
     Plus10s,
+    /// the clock advances by 7 s, then one egress pass (only with `start_tw`)
+    Plus7s,
     /// the clock advances by 1 s and nobody polls (only in `rst_mode`)
     Sleep1s,
     /// like ToPollAt, but the device refuses every frame during that poll (a retransmission
@@ -906,8 +914,9 @@ impl Fsm {
         if to == State::TimeWait && from != State::TimeWait {
             self.obs.tw_min = Some(self.w.now + 10_000_000);
             self.obs.tw_max = Some(self.w.now + 10_000_000);
-        } else if to == State::TimeWait && matches!(stim, Stim::Seg { .. }) {
-            // a segment arriving in TIME-WAIT may legitimately restart the 2MSL timer
+        } else if to == State::TimeWait && matches!(stim, Stim::Seg { flags, .. } if flags & wc::TCP_RST == 0) {
+            // a segment arriving in TIME-WAIT may legitimately restart the 2MSL timer - but not
+            // a RST: it either resets the connection (acceptable) or is dropped without effect
             self.obs.tw_max = Some(self.w.now + 10_000_000);
         }
         if to != State::TimeWait {
@@ -954,7 +963,22 @@ impl Harness for Fsm {
                 a.push(IpCidr::new(IpAddress::Ipv4(Ipv4Address::new(LOCAL2[0], LOCAL2[1], LOCAL2[2], LOCAL2[3])), 24)).unwrap();
             });
         }
-        Fsm { cfg: cfg.clone(), w, obs: Obs::default(), pending: vec![] }
+        let mut f = Fsm { cfg: cfg.clone(), w, obs: Obs::default(), pending: vec![] };
+        if cfg.start_tw {
+            let p = cfg.peer_isn;
+            let mut sink = vec![];
+            f.apply(&FsmEv::Api(Api::Listen), &mut sink);
+            f.apply(&FsmEv::Seg { flags: wc::TCP_SYN, seq: p, ack: None, len: 0 }, &mut sink);
+            let iss = f.obs.iss.expect("start_tw: no SYN-ACK");
+            f.apply(&FsmEv::Seg { flags: 0, seq: p.wrapping_add(1), ack: Some(iss.wrapping_add(1)), len: 0 }, &mut sink);
+            f.apply(&FsmEv::Api(Api::Close), &mut sink);
+            f.apply(&FsmEv::Seg { flags: wc::TCP_FIN, seq: p.wrapping_add(1), ack: Some(iss.wrapping_add(2)), len: 0 }, &mut sink);
+            if f.w.state() != State::TimeWait {
+                sink.push(Viol::new("MACHINERY/start-tw-prefix", format!("prefix ended in {}", f.w.state())));
+            }
+            f.pending = sink;
+        }
+        f
     }
     fn enabled(&self) -> Vec<(FsmEv, u32)> {
         let mut v = vec![];
@@ -994,6 +1018,9 @@ impl Harness for Fsm {
         }
         v.push((FsmEv::ToPollAt, 0));
         v.push((FsmEv::Plus10s, 0));
+        if self.cfg.start_tw {
+            v.push((FsmEv::Plus7s, 0));
+        }
         v.push((FsmEv::ToPollAtBlocked, 0));
         if self.w.state() == State::Closed {
             return v; // a closed socket accepts no segment; nothing to learn from sending any
@@ -1062,7 +1089,7 @@ impl Harness for Fsm {
         match ev {
             FsmEv::Seg { flags, seq, ack, len } => {
                 let payload = vec![0x5a; *len];
-                let seg = build_seg_to(if self.cfg.second_addr { LOCAL2 } else { LOCAL }, *seq, *ack, *flags, self.cfg.peer_win, if flags & wc::TCP_SYN != 0 { &[2, 4, 5, 180] } else { &[] }, &payload);
+                let seg = build_seg_to(if self.cfg.second_addr { LOCAL2 } else { LOCAL }, *seq, *ack, *flags, if flags & wc::TCP_FIN != 0 { self.cfg.fin_win.unwrap_or(self.cfg.peer_win) } else { self.cfg.peer_win }, if flags & wc::TCP_SYN != 0 { &[2, 4, 5, 180] } else { &[] }, &payload);
                 let pre = self.w.state();
                 if pre == State::Listen {
                     self.obs.was_listening = true;
@@ -1129,6 +1156,10 @@ impl Harness for Fsm {
                 self.w.now += 10_000_000;
                 self.egress_step();
             }
+            FsmEv::Plus7s => {
+                self.w.now += 7_000_000;
+                self.egress_step();
+            }
             FsmEv::Sleep1s => {
                 self.w.now += 1_000_000;
             }
@@ -1156,18 +1187,22 @@ impl Harness for Fsm {
 pub fn fsm_configs(tier: Tier) -> Vec<(FsmCfg, usize)> {
     match tier {
         Tier::Quick => vec![
-            (FsmCfg { name: "full", peer_isn: 0xffff_fff0, rx: 8, reduced: false, peer_win: 500, send_len: 1, rst_mode: false, second_addr: false }, 5),
-            (FsmCfg { name: "reduced", peer_isn: 5000, rx: 8, reduced: true, peer_win: 500, send_len: 1, rst_mode: false, second_addr: false }, 7),
-            (FsmCfg { name: "reduced-win1-send3", peer_isn: 5000, rx: 8, reduced: true, peer_win: 1, send_len: 3, rst_mode: false, second_addr: false }, 6),
-            (FsmCfg { name: "rst-window-zwp", peer_isn: 5000, rx: 8, reduced: true, peer_win: 0, send_len: 3, rst_mode: true, second_addr: false }, 7),
-            (FsmCfg { name: "reduced-second-address", peer_isn: 5000, rx: 8, reduced: true, peer_win: 500, send_len: 1, rst_mode: false, second_addr: true }, 5),
+            (FsmCfg { name: "full", peer_isn: 0xffff_fff0, rx: 8, reduced: false, peer_win: 500, send_len: 1, rst_mode: false, second_addr: false, fin_win: None, start_tw: false }, 5),
+            (FsmCfg { name: "reduced", peer_isn: 5000, rx: 8, reduced: true, peer_win: 500, send_len: 1, rst_mode: false, second_addr: false, fin_win: None, start_tw: false }, 7),
+            (FsmCfg { name: "reduced-win1-send3", peer_isn: 5000, rx: 8, reduced: true, peer_win: 1, send_len: 3, rst_mode: false, second_addr: false, fin_win: None, start_tw: false }, 6),
+            (FsmCfg { name: "rst-window-zwp", peer_isn: 5000, rx: 8, reduced: true, peer_win: 0, send_len: 3, rst_mode: true, second_addr: false, fin_win: None, start_tw: false }, 7),
+            (FsmCfg { name: "reduced-second-address", peer_isn: 5000, rx: 8, reduced: true, peer_win: 500, send_len: 1, rst_mode: false, second_addr: true, fin_win: None, start_tw: false }, 5),
+            (FsmCfg { name: "reduced-fin-window-0", peer_isn: 5000, rx: 8, reduced: true, peer_win: 500, send_len: 1, rst_mode: false, second_addr: false, fin_win: Some(0), start_tw: false }, 7),
+            (FsmCfg { name: "from-time-wait", peer_isn: 0xffff_fff0, rx: 8, reduced: false, peer_win: 500, send_len: 1, rst_mode: false, second_addr: false, fin_win: None, start_tw: true }, 3),
         ],
         Tier::Thorough => vec![
-            (FsmCfg { name: "full", peer_isn: 0xffff_fff0, rx: 8, reduced: false, peer_win: 500, send_len: 1, rst_mode: false, second_addr: false }, 5),
-            (FsmCfg { name: "reduced", peer_isn: 5000, rx: 8, reduced: true, peer_win: 500, send_len: 1, rst_mode: false, second_addr: false }, 8),
-            (FsmCfg { name: "reduced-win1-send3", peer_isn: 5000, rx: 8, reduced: true, peer_win: 1, send_len: 3, rst_mode: false, second_addr: false }, 8),
-            (FsmCfg { name: "rst-window-zwp", peer_isn: 5000, rx: 8, reduced: true, peer_win: 0, send_len: 3, rst_mode: true, second_addr: false }, 9),
-            (FsmCfg { name: "reduced-second-address", peer_isn: 5000, rx: 8, reduced: true, peer_win: 500, send_len: 1, rst_mode: false, second_addr: true }, 7),
+            (FsmCfg { name: "full", peer_isn: 0xffff_fff0, rx: 8, reduced: false, peer_win: 500, send_len: 1, rst_mode: false, second_addr: false, fin_win: None, start_tw: false }, 5),
+            (FsmCfg { name: "reduced", peer_isn: 5000, rx: 8, reduced: true, peer_win: 500, send_len: 1, rst_mode: false, second_addr: false, fin_win: None, start_tw: false }, 8),
+            (FsmCfg { name: "reduced-win1-send3", peer_isn: 5000, rx: 8, reduced: true, peer_win: 1, send_len: 3, rst_mode: false, second_addr: false, fin_win: None, start_tw: false }, 8),
+            (FsmCfg { name: "rst-window-zwp", peer_isn: 5000, rx: 8, reduced: true, peer_win: 0, send_len: 3, rst_mode: true, second_addr: false, fin_win: None, start_tw: false }, 9),
+            (FsmCfg { name: "reduced-second-address", peer_isn: 5000, rx: 8, reduced: true, peer_win: 500, send_len: 1, rst_mode: false, second_addr: true, fin_win: None, start_tw: false }, 7),
+            (FsmCfg { name: "reduced-fin-window-0", peer_isn: 5000, rx: 8, reduced: true, peer_win: 500, send_len: 1, rst_mode: false, second_addr: false, fin_win: Some(0), start_tw: false }, 8),
+            (FsmCfg { name: "from-time-wait", peer_isn: 0xffff_fff0, rx: 8, reduced: false, peer_win: 500, send_len: 1, rst_mode: false, second_addr: false, fin_win: None, start_tw: true }, 4),
         ],
     }
 }
